@@ -63,11 +63,11 @@ Definition body_add_iface (n : name) (d : def) : body :=
         | None => Wr M_ifc n d (Ret ROk) end) end).
 Definition body_add_func (n : name) (d : def) : body :=
   Rd M_fn n (fun a => match a with Some _ => Ret RErr | None => Wr M_fn n d (Ret ROk) end).
-(* findClassCaseInsensitive: exact key, else range over the map *)
+(* findClassCaseInsensitive: exact key, else range over the map and keep the smallest matching key *)
 Definition body_get_class (n : name) : body :=
   Rd M_cls n (fun a => match a with
     | Some d => Ret (RFound [d])
-    | None => RdAll M_cls (fun m => Ret (RFound (map snd (filter (fun p => fold_eqb (fst p) n) m)))) end).
+    | None => RdAll M_cls (fun m => Ret (RFound (olist (option_map snd (min_key (filter (fun p => fold_eqb (fst p) n) m)))))) end).
 Definition body_get_iface (n : name) : body := Rd M_ifc n (fun a => Ret (RFound (olist a))).
 Definition body_get_func (n : name) : body :=
   Rd M_fn n (fun a => match a with
